@@ -805,7 +805,7 @@ theorem iinv_step (s : Inb) (op : IOp) (hp : dcpForwardsPause = true) (hr : dcpF
   | close sc =>
     simp only [istep]
     split
-    · exact ⟨h.exact, h.alt, h.fresh, h.connLe⟩
+    · exact iinv_discard { s with openSc := sDel sc s.openSc } sc hr ⟨h.exact, h.alt, h.fresh, h.connLe⟩
     · exact ⟨fun g hg => by simpa [lastPaused] using h.exact g hg, by simpa [altOK] using h.alt,
         fun g hg => by simpa [lastPaused] using h.fresh g hg, h.connLe⟩
 
@@ -817,25 +817,37 @@ theorem ireach_inv (hp : dcpForwardsPause = true) (hr : dcpForwardsResume = true
   | init => exact iinit_inv
   | step op _ ih => exact iinv_step _ op hp hr ih
 
-/-! ## Inbound: the pause requests of subchannels that are still open -/
+/-! ## Inbound: the pause requests of subchannels that are not closed -/
 
-/-- ghost: the subchannels whose application has asked for a pause and has neither resumed,
-    stopped, nor been closed since (a closed subchannel's application no longer counts) -/
-def wantStep (s : Inb) (w : List Nat) : IOp → List Nat
-  | .pause sc => sAdd sc w
-  | .resume sc => sDel sc w
-  | .stopProducing sc => sDel sc w
-  | .close sc => if sc ∈ s.openSc then sDel sc w else w
-  | _ => w
+/-- ghost bookkeeping, independent of `Inbound`'s own set -/
+structure Ghost where
+  w : List Nat := []     -- subchannels whose application has an outstanding pause request
+  cl : List Nat := []    -- subchannels that were closed (and not opened again)
 
-inductive IReachW : Inb → List Nat → Prop
-  | init : IReachW {} []
-  | step {s : Inb} {w : List Nat} (op : IOp) : IReachW s w → IReachW (istep s op) (wantStep s w op)
+def gstep (s : Inb) (g : Ghost) : IOp → Ghost
+  | .pause sc => { g with w := sAdd sc g.w }
+  | .resume sc => { g with w := sDel sc g.w }
+  | .stopProducing sc => { g with w := sDel sc g.w }
+  | .close sc => if sc ∈ s.openSc then { w := sDel sc g.w, cl := sAdd sc g.cl } else g   -- its request dies with it
+  | .opn sc => if sc ∈ s.openSc then g else { g with cl := sDel sc g.cl }
+  | _ => g
 
-theorem IReachW.reach {s : Inb} {w : List Nat} (h : IReachW s w) : IReach s := by
+/-- environment: the application of a closed subchannel does not ask for a pause any more -/
+def iopOK (g : Ghost) : IOp → Prop
+  | .pause sc => sc ∉ g.cl
+  | _ => True
+
+instance (g : Ghost) (op : IOp) : Decidable (iopOK g op) := by
+  cases op <;> simp only [iopOK] <;> infer_instance
+
+inductive IReachW : Inb → Ghost → Prop
+  | init : IReachW {} {}
+  | step {s : Inb} {g : Ghost} (op : IOp) : IReachW s g → iopOK g op → IReachW (istep s op) (gstep s g op)
+
+theorem IReachW.reach {s : Inb} {g : Ghost} (h : IReachW s g) : IReach s := by
   induction h with
   | init => exact IReach.init
-  | step op _ ih => exact IReach.step op ih
+  | step op _ _ ih => exact IReach.step op ih
 
 theorem discard_pausedSc (s : Inb) (sc : Nat) : (s.discard sc).pausedSc = sDel sc s.pausedSc := by
   unfold Inb.discard
@@ -850,6 +862,7 @@ theorem istep_pausedSc (s : Inb) (op : IOp) :
       | .pause sc => sAdd sc s.pausedSc
       | .resume sc => sDel sc s.pausedSc
       | .stopProducing sc => sDel sc s.pausedSc
+      | .close sc => if sc ∈ s.openSc then sDel sc s.pausedSc else s.pausedSc
       | _ => s.pausedSc := by
   cases op with
   | use => simp only [istep]; split
@@ -865,28 +878,49 @@ theorem istep_pausedSc (s : Inb) (op : IOp) :
   | resume sc => exact discard_pausedSc s sc
   | stopProducing sc => exact discard_pausedSc s sc
   | opn sc => simp only [istep]; split <;> rfl
-  | close sc => simp only [istep]; split <;> rfl
+  | close sc =>
+    simp only [istep]; split
+    · rw [discard_pausedSc]
+    · rfl
 
-theorem want_subset {s : Inb} {w : List Nat} (h : IReachW s w) : ∀ sc, sc ∈ w → sc ∈ s.pausedSc := by
+/-- the ghost request set and `_paused_subchannels` have the same members, and nobody in it is closed -/
+theorem want_eq {s : Inb} {g : Ghost} (h : IReachW s g) :
+    (∀ sc, sc ∈ g.w ↔ sc ∈ s.pausedSc) ∧ (∀ sc, sc ∈ g.w → sc ∉ g.cl) := by
   induction h with
-  | init => intro sc hsc; cases hsc
-  | step op _ ih =>
-    intro sc hsc
-    rw [istep_pausedSc]
-    cases op with
-    | use => exact ih sc hsc
-    | stop => exact ih sc hsc
-    | pause x => simp only [wantStep, mem_sAdd] at hsc ⊢; rcases hsc with h | h
-                 · exact Or.inl h
-                 · exact Or.inr (ih sc h)
-    | resume x => simp only [wantStep, mem_sDel] at hsc ⊢; exact ⟨ih sc hsc.1, hsc.2⟩
-    | stopProducing x => simp only [wantStep, mem_sDel] at hsc ⊢; exact ⟨ih sc hsc.1, hsc.2⟩
-    | opn x => exact ih sc hsc
-    | close x =>
-      simp only [wantStep] at hsc
-      split at hsc
-      · exact ih sc (mem_sDel.1 hsc).1
-      · exact ih sc hsc
+  | init => exact ⟨fun sc => by simp, fun sc hsc => by cases hsc⟩
+  | step op _ hok ih =>
+    obtain ⟨ih1, ih2⟩ := ih
+    refine ⟨fun sc => ?_, fun sc => ?_⟩
+    · rw [istep_pausedSc]
+      cases op with
+      | use => exact ih1 sc
+      | stop => exact ih1 sc
+      | pause x => simp only [gstep, mem_sAdd, ih1 sc]
+      | resume x => simp only [gstep, mem_sDel, ih1 sc]
+      | stopProducing x => simp only [gstep, mem_sDel, ih1 sc]
+      | opn x => simp only [gstep]; split <;> exact ih1 sc
+      | close x => simp only [gstep]; split <;> simp only [mem_sDel, ih1 sc]
+    · cases op with
+      | use => exact ih2 sc
+      | stop => exact ih2 sc
+      | pause x =>
+        simp only [gstep, mem_sAdd]
+        rintro (rfl | hsc)
+        · exact hok
+        · exact ih2 sc hsc
+      | resume x => simp only [gstep, mem_sDel]; exact fun hsc => ih2 sc hsc.1
+      | stopProducing x => simp only [gstep, mem_sDel]; exact fun hsc => ih2 sc hsc.1
+      | opn x =>
+        simp only [gstep]; split
+        · exact ih2 sc
+        · simp only [mem_sDel]; exact fun hsc hc => ih2 sc hsc hc.1
+      | close x =>
+        simp only [gstep]; split
+        · simp only [mem_sDel, mem_sAdd]
+          rintro ⟨hsc, hne⟩ (h1 | h1)
+          · exact hne h1
+          · exact ih2 sc hsc h1
+        · exact ih2 sc
 
 /-! ## building concrete reachable configurations (for the non-vacuity examples) -/
 
